@@ -198,9 +198,13 @@ fn meshes(rng: &mut Rng, thorough: bool) {
         }
         _ => Mesh::create_box(rng.range(0.5, 4.0), rng.range(0.5, 4.0), rng.range(0.5, 4.0), false),
     };
+    // the same parts a thousand times smaller (a millimetre-sized part modelled in metres): closest points, normals and
+    // the angle filter are scale-covariant
+    let sf = if rng.chance(0.3) { 1e-3 } else { 1.0 };
+    let mesh = if sf == 1.0 { mesh } else { Mesh::new(mesh.vertices().iter().map(|p| Point3::from(p.coords * sf)).collect(), mesh.faces().to_vec(), false) };
     let vs = mesh.vertices().to_vec();
     let fs = mesh.faces().to_vec();
-    let scale = 1.0 + vs.iter().map(|p| p.coords.norm()).fold(0.0, f64::max);
+    let scale = sf * 1.0 + vs.iter().map(|p| p.coords.norm()).fold(0.0, f64::max);
     let mut qs = Vec::new();
     let mut ds = Vec::new();
     let mut v = Verdict::new();
@@ -211,8 +215,8 @@ fn meshes(rng: &mut Rng, thorough: bool) {
         let q = match rng.below(5) {
             0 => a,
             1 => Point3::from((a.coords + b.coords + c.coords) / 3.0),
-            2 => Point3::new(rng.range(-50.0, 50.0), rng.range(-50.0, 50.0), rng.range(-50.0, 50.0)),
-            _ => a + Vector3::new(rng.gauss(), rng.gauss(), rng.gauss()) * rng.range(0.0, 1.5),
+            2 => Point3::new(rng.range(-50.0, 50.0) * sf, rng.range(-50.0, 50.0) * sf, rng.range(-50.0, 50.0) * sf),
+            _ => a + Vector3::new(rng.gauss(), rng.gauss(), rng.gauss()) * rng.range(0.0, 1.5) * sf,
         };
         let sp = mesh.surf_closest_to(&q);
         let d = (sp.point - q).norm();
@@ -220,8 +224,14 @@ fn meshes(rng: &mut Rng, thorough: bool) {
         let tol = 1e-9 * (scale + q.coords.norm());
         v.require((d - brute).abs() <= tol, "mesh.no_element_nearer", || format!("faces={} q={q:?}: reported {d} brute force {brute}", fs.len()));
         v.require((mesh.point_closest_to(&q) - sp.point).norm() <= tol, "mesh.point_closest_to_agrees", || "".into());
+        // the normal reported with the closest point is the unit normal of a face the point lies on (never a
+        // direction made up from the query)
+        {
+            let on: Vec<Vector3> = fs.iter().filter(|t| tri_dist(&sp.point, &vs[t[0] as usize], &vs[t[1] as usize], &vs[t[2] as usize]) <= tol).map(|t| (vs[t[1] as usize] - vs[t[0] as usize]).cross(&(vs[t[2] as usize] - vs[t[0] as usize]))).filter(|n| n.norm() > 0.0).map(|n| n.normalize()).collect();
+            v.require(on.is_empty() || on.iter().any(|n| (n - sp.normal.into_inner()).norm() <= 1e-7), "mesh.closest_point_carries_the_normal_of_its_face", || format!("{:?} vs the faces through the point {on:?}", sp.normal));
+        }
         // the reported face: point lies on it and the normal is that face's normal
-        let cap = d + 1.0;
+        let cap = d + 1.0 * sf;
         match mesh.project_with_max_dist(&q, cap) {
             None => v.require(false, "mesh.capped_returns_when_within_cap", || format!("d={d} cap={cap}")),
             Some((prj, id, _loc)) => {
@@ -242,7 +252,7 @@ fn meshes(rng: &mut Rng, thorough: bool) {
         }
         // angle filter: accepted exactly when the offset is within the angle of ± the face normal
         let max_angle = rng.range(0.05, 1.5);
-        if d > 1e-6 {
+        if d > 1e-6 * sf {
             if let Some((prj, id, _)) = mesh.project_with_max_dist(&q, cap) {
                 if let Some(nrm) = mesh.tri_mesh().triangle(id).normal() {
                     let ang = nrm.angle(&(q - prj.point));
@@ -263,7 +273,7 @@ fn meshes(rng: &mut Rng, thorough: bool) {
     {
         let mut sorted = ds.clone();
         sorted.sort_by(|a, b| a.partial_cmp(b).unwrap());
-        let cap = sorted[sorted.len() / 2] * rng.range(0.8, 1.3) + 1e-3;
+        let cap = sorted[sorted.len() / 2] * rng.range(0.8, 1.3) + 1e-3 * sf;
         let max_angle = rng.range(0.05, 1.5);
         let t: Option<engeom::Iso3> = match rng.below(3) {
             0 => None,
